@@ -29,3 +29,15 @@ SPEC("pane.types", "ValueOrListConverter.__init__", mutable=["self"],
 
 SPEC("pane.types", "ValueOrList.__init__", mutable=["self"], total=True,
      ensures=[(lambda self, val, _is_val: self._inner is val and self._is_val is _is_val, ["C05"], "fields")])
+
+# ValueOrList[T] annotations build the converter with the element type (Any when unsubscripted) and THE handlers (C18)
+SPEC("pane.types", "ValueOrList._converter",
+     shapes={"args": "seq"},
+     ensures=[(lambda cls, args, handlers, result: result == ValueOrListConverter(ite(slen(args) > 0, sat(args, 0), ANY), handlers=handlers), ["C18", "C01"], "wiring")])
+
+# equality distinguishes the single-value form from the one-element list (C05: the round trip keeps the form)
+SPEC("pane.types", "ValueOrList.__eq__",
+     shapes={"self": "rec:ValueOrList", "other": "rec:ValueOrList"},
+     ensures=[(lambda self, other, result: implies(self.__class__ == other.__class__,
+                                                   truthy(result) == (self._is_val == other._is_val and self._inner == other._inner)), ["C05"], "form-and-content"),
+              (lambda self, other, result: implies(self.__class__ != other.__class__, not truthy(result)), ["C05"], "other-class")])
